@@ -43,8 +43,8 @@ COMPONENTS = {
     "stub": [],
 }
 TIERS = {
-    "quick": {"histories": 40, "budget_s": 170, "timeout": 400, "shrink_s": 200},
-    "thorough": {"histories": 400, "budget_s": 2400, "timeout": 600, "shrink_s": 600},
+    "quick": {"histories": 40, "budget_s": 170, "timeout": 1500, "shrink_s": 200},
+    "thorough": {"histories": 400, "budget_s": 2400, "timeout": 1800, "shrink_s": 600},
 }
 
 ENVS = [
